@@ -144,7 +144,7 @@ func C09(r *core.Run) {
 		se := sessions[si]
 		for hi := 0; hi < nh; hi++ {
 			rg := r.Rand("hist", se.label(), hi)
-			w, h, ops := shadow.Gen(rg, shadow.GenOpts{MaxW: 16, MaxH: 6, Urls: true})
+			w, h, ops := shadow.Gen(rg, shadow.GenOpts{MaxW: 16, MaxH: 6, Urls: true, WeirdColors: true, SuspendResume: true})
 			st := &execStats{}
 			v := execHistory(se, w, h, ops, execOpts{props: armed, stats: st})
 			r.Count("history_controls_tokenized", st.controls)
@@ -169,7 +169,7 @@ func C09(r *core.Run) {
 		se := sessions8[si]
 		for hi := 0; hi < nh8; hi++ {
 			rg := r.Rand("hist8", se.label(), hi)
-			w, h, ops := shadow.Gen(rg, shadow.GenOpts{MaxW: 16, MaxH: 6, Urls: true})
+			w, h, ops := shadow.Gen(rg, shadow.GenOpts{MaxW: 16, MaxH: 6, Urls: true, WeirdColors: true, SuspendResume: true})
 			st := &execStats{}
 			v := execHistory(se, w, h, ops, execOpts{props: armed, stats: st})
 			r.Count("history_controls_tokenized", st.controls)
